@@ -63,10 +63,10 @@ def emit_projects(tier, seed, sc):
     return lines
 
 
-def session_run(v, cases, hists, out, work, projects, all_len, seed, only=None, after_every=1):
+def session_run(v, cases, hists, out, work, projects, all_len, seed, only=None, after_every=1, baseline_repeats=3):
     meta = out + ".meta.json"
     cmd = [v, "session-run", "--cases", cases, "--hists", hists, "--out", out, "--meta", meta, "--repo", c.REPO, "--work", work,
-           "--jobs", str(c.NCPU), "--projects", str(projects), "--all-len", str(all_len), "--seed", str(seed), "--after-every", str(after_every)]
+           "--jobs", str(c.NCPU), "--projects", str(projects), "--all-len", str(all_len), "--seed", str(seed), "--after-every", str(after_every), "--baseline-repeats", str(baseline_repeats)]
     if only:
         cmd += ["--only-project", only]
     p = subprocess.run(cmd, stdout=subprocess.PIPE, stderr=subprocess.STDOUT, text=True)
@@ -135,7 +135,8 @@ def one(v, sc, project_line, hist_line, tag):
     open(pc, "w").write(project_line)
     open(hc, "w").write(hist_line)
     rec = os.path.join(sc, tag + ".rec")
-    meta = session_run(v, pc, hc, rec, os.path.join(sc, "work-" + tag), 1, 99, c.seed())
+    # eight fresh processes must agree on the project before a difference is attributed to the session
+    meta = session_run(v, pc, hc, rec, os.path.join(sc, "work-" + tag), 1, 99, c.seed(), baseline_repeats=8)
     if meta["sessions"] != 1:
         return None, None, meta
     j, tv = judge_and_validate(v, rec, sc, tag, isolated=True)
@@ -218,11 +219,17 @@ def run(tier):
     by_id = {case_id(l): l for l in plines}
     by_hist = {",".join(hist_of(l)): l for l in chosen + longs}
     seen = set()
+    dropped = []
     for proj, hist, sig, what in candidates_of(j, tv)[:5]:
         pl, hl = by_id.get(proj), by_hist.get(",".join(hist))
         if pl is None or hl is None:
             raise c.Trouble("cannot find the case lines of candidate %s %s" % (proj, hist))
         j1, tv1, m1 = one(v, sc, pl, hl, "iso-%s-%d" % (proj, len(seen) + len(violations)))
+        if j1 is None and any("fresh processes disagree" in k for k in m1.get("skipped", {})):
+            # "the same as a brand-new session" is undefined where brand-new sessions differ among themselves
+            c.log("NOTE candidate on project %s dropped: fresh processes disagree with each other on this project (non-determinism, C13's subject): %s" % (proj, what[:200]))
+            dropped.append(proj)
+            continue
         if j1 is None or not (j1["findings"] or tv1["rejected"]):
             raise c.Trouble("candidate for C19 on project %s history %s was not reproduced in isolation: %s" % (proj, ",".join(hist), what))
         text = j1["findings"][0]["what"] if j1["findings"] else what
@@ -249,6 +256,7 @@ def run(tier):
     cov["sessions_by_history_length"] = j["byLen"]
     cov["log_lines_validated_by_tlc"] = tv["events"]
     cov["project_selection"] = meta
+    cov["candidates_dropped_for_nondeterministic_project"] = dropped
     c.write_evidence(PROP, tier, "model_checking", cov, time.time() - t0,
                      ["the project is fixed during a session (no file changes): cache invalidation on edits is outside this property",
                       "'accepted project' and 'fresh session' are measured on the real code in separate processes, never predicted; projects on which two fresh processes disagree are skipped (that is C13's subject)",
@@ -265,7 +273,7 @@ def replay(path):
     j1, tv1, m1 = one(v, sc, data["project_case"], data["hist_case"], "replay")
     if j1 is None:
         print("replay: the project is not usable on this tree (%s)" % json.dumps(m1))
-        return 2
+        return 0 if any("fresh processes disagree" in k for k in m1.get("skipped", {})) else 2
     if not (j1["findings"] or tv1["rejected"]):
         print("replay: the session conforms on this tree")
         return 0
